@@ -77,9 +77,11 @@ def check(ctx: Ctx, rep: Report):
     r7(ctx, rep)
     rep.rule("C19.R8", "valid arguments are accepted: a path of a setter that ends without writing (ValueError, silent return) is infeasible for arguments inside the documented domain", 5)
     r8(ctx, rep)
-    rep.rule("C19.R9", "the getters' read-back asks for exactly the setting's registers and decodes the answer from its first byte (shared with C16.R1; ET and ES)", 2)
+    rep.rule("C19.R9", "the getters' read-back asks for exactly the setting's registers and decodes the answer from its first byte (shared with C16.R1; ET and ES); ES reads and writes a setting through the protocol of its register (shared with C17.R6)", 4)
     from .c16 import single_read_form
     single_read_form(ctx, rep, "C19.R9", ("ET", "ES"))
+    from .c17 import protocol_routing
+    protocol_routing(ctx, rep, "C19.R9")
 
 
 def r8(ctx: Ctx, rep: Report):
@@ -805,6 +807,44 @@ def r4(ctx: Ctx, rep: Report):
                     rng.append("%s=%s" % (attr, fv))
             rep.check(not rng, "C19.R4", key + ":ranges", enc.loc(), "time fields of %s.encode_%s are valid" % (cname, kind),
                       bad="%s.encode_%s: time fields out of range: %s" % (cname, kind, rng))
+            # ... and read_value's own guards (`if <test of one field>: raise`) let every field value of the template through:
+            # the literals, power -100..-1 / 1..100 (EcoModeV1: unscaled), SoC 0..100
+            rv = prog.find_method(ci, "read_value")
+            refused, nguards = [], 0
+            for st_ in (ast.walk(rv.node) if rv is not None else []):
+                if not (isinstance(st_, ast.If) and len(st_.body) == 1 and isinstance(st_.body[0], ast.Raise) and not st_.orelse):
+                    continue
+                attrs = {x.attr for x in ast.walk(st_.test) if isinstance(x, ast.Attribute) and isinstance(x.value, ast.Name) and x.value.id == "self"}
+                if len(attrs) != 1 or any(isinstance(x, ast.Call) for x in ast.walk(st_.test)):
+                    continue
+                attr = next(iter(attrs))
+                if attr not in fields:
+                    continue
+                fv = field_value(lay, *fields[attr])
+                if fv is not None and fv[0] == "lit":
+                    vals = [_signed(fv[1], fields[attr][1])]
+                elif attr == "power" and cname == "EcoModeV1":
+                    vals = list(range(-100, 0)) if kind == "charge" else list(range(1, 101))
+                elif attr == "soc" and kind == "charge":
+                    vals = list(range(0, 101))
+                else:
+                    continue
+                nguards += 1
+                for v in vals:
+                    class _Bag:
+                        pass
+                    b = _Bag()
+                    setattr(b, attr, v)
+                    try:
+                        if prog.consteval(st_.test, rv.module, {"self": b}):
+                            refused.append("%s = %d (%s)" % (attr, v, norm(st_.test)))
+                            break
+                    except NotConst:
+                        nguards -= 1
+                        break
+            rep.check(not refused, "C19.R4", key + ":decoder-accepts", rv.loc() if rv is not None else enc.loc(),
+                      "%s.read_value accepts every field value %s.encode_%s can produce (%d guards evaluated)" % (cname, cname, kind, nguards),
+                      bad="%s.read_value refuses a group that encode_%s produces for a valid request: %s - the mode that was set cannot be read back" % (cname, kind, "; ".join(refused)))
     # 745 scaling
     st = prog.cls("ScheduleType")
     enc, decf, rng = st.methods.get("encode_power"), st.methods.get("decode_power"), st.methods.get("is_in_range")
@@ -949,10 +989,13 @@ def _check_conjunct(prog, enc: FuncInfo, cj: ast.expr, lay, fields, kind: str) -
     if attr == "on_off":
         # template byte (unsigned) e, read back signed: e - 256 must equal the recogniser's right-hand side
         s = Sym.for_function(prog, enc)
-        lhs = s.lin(e) - Lin.of_const(256)
         r = s.lin(rhs)
         if isinstance(op, ast.Eq):
-            return [] if lhs == r else ["on_off byte %s reads back as %r, recogniser needs %r" % (norm(e), lhs, r)]
+            for leaf in _value_leaves(enc, prog, e):          # (the byte may come from a no-argument helper)
+                lhs = s.lin(leaf) - Lin.of_const(256)
+                if lhs != r:
+                    return ["on_off byte %s reads back as %r, recogniser needs %r" % (norm(leaf), lhs, r)]
+            return []
         return ["on_off conjunct %s not understood" % txt]
     return ["field %s is computed (%s); conjunct %s not checked" % (attr, norm(e), txt)]
 
